@@ -33,12 +33,15 @@ class _Return(Exception):
 
 
 class Evaluator:
-    def __init__(self, methods: Optional[Dict[str, Any]] = None, max_steps=20000, functions=None, lookup=None):
+    def __init__(self, methods: Optional[Dict[str, Any]] = None, max_steps=20000, functions=None, lookup=None,
+                 natives=None, modules=None):
         # methods: (class name, method name) -> ast.FunctionDef, used for dunder dispatch (__lt__) and properties
         self.methods = methods or {}
         self.functions = functions or {}       # name -> ast.FunctionDef (pure helpers, inlined one call deep)
         self.lookup = lookup                   # callback(name) -> ast.expr | None for lazily bound locals
         self._call_depth = 0
+        self.natives = natives or {}           # (class, method) -> python callable(*args) standing for a repo method
+        self.modules = modules or {}           # module name -> {attribute: value or python callable}
         self.steps = 0
         self.max_steps = max_steps
 
@@ -82,6 +85,12 @@ class Evaluator:
             cur = env[st.target.id]
             env[st.target.id] = self.binop(st.op, cur, self.expr(st.value, env))
             return
+        if isinstance(st, ast.AugAssign) and isinstance(st.target, ast.Attribute):
+            base = self.expr(st.target.value, env)
+            if not isinstance(base, Obj):
+                raise Unsupported("attribute store on non-object")
+            base.__dict__[st.target.attr] = self.binop(st.op, base.__dict__[st.target.attr], self.expr(st.value, env))
+            return
         if isinstance(st, ast.For):
             for item in self.iterate(self.expr(st.iter, env)):
                 self.assign(st.target, item, env)
@@ -93,6 +102,11 @@ class Evaluator:
     def assign(self, t, v, env):
         if isinstance(t, ast.Name):
             env[t.id] = v
+        elif isinstance(t, ast.Attribute):
+            base = self.expr(t.value, env)
+            if not isinstance(base, Obj):
+                raise Unsupported("attribute store on non-object")
+            base.__dict__[t.attr] = v
         elif isinstance(t, (ast.Tuple, ast.List)):
             vs = list(v)
             if len(vs) != len(t.elts):
@@ -134,6 +148,10 @@ class Evaluator:
                     return v
             raise Unsupported(f"free name {e.id}")
         if isinstance(e, ast.Attribute):
+            if isinstance(e.value, ast.Name) and e.value.id in self.modules and e.value.id not in env:
+                if e.attr in self.modules[e.value.id]:
+                    return self.modules[e.value.id][e.attr]
+                raise Unsupported(f"module attribute {e.value.id}.{e.attr}")
             base = self.expr(e.value, env)
             if isinstance(base, Obj):
                 if e.attr in base.__dict__:
@@ -342,7 +360,16 @@ class Evaluator:
                 return (tuple if n == "tuple" else list)(args[0])
             raise Unsupported(f"call {n}")
         if isinstance(f, ast.Attribute):
+            if isinstance(f.value, ast.Name) and f.value.id in self.modules and f.value.id not in env:
+                fn_ = self.modules[f.value.id].get(f.attr)
+                if not callable(fn_):
+                    raise Unsupported(f"module function {f.value.id}.{f.attr}")
+                return fn_(*args, **{k.arg: self.expr(k.value, env) for k in e.keywords})
             base = self.expr(f.value, env)
+            if isinstance(base, Obj) and (base._cls, f.attr) in self.natives:
+                return self.natives[(base._cls, f.attr)](*args, **{k.arg: self.expr(k.value, env) for k in e.keywords})
+            if isinstance(base, Obj) and f.attr in base.__dict__.get("_native", {}):
+                return base.__dict__["_native"][f.attr](*args)
             if isinstance(base, str) and f.attr in ("upper", "lower", "startswith", "endswith", "replace", "count",
                                                      "strip", "join"):
                 return getattr(base, f.attr)(*args)
